@@ -7,6 +7,7 @@
 import Ark.Props.C07
 import Ark.Proofs.GenBridge.BookPool
 import Ark.Proofs.GenBridge.BookLock
+import Ark.Generated.FactsMutex
 
 namespace Ark.Props.C07Src
 open Ark
@@ -45,5 +46,16 @@ theorem src_lock_histories : type_of% @Ark.GenBridge.Book.run_eq := @Ark.GenBrid
     in the translated source as in the model -/
 example : (Ark.GenBridge.Book.toLock ([Lock.Op.lock, .lock, .lock, .unlock 1, .lock].foldl Ark.GenBridge.Book.gstep
     Ark.Generated.Book.newLock)).locks = 7#64 := by decide
+
+/-! ### Queries take and release their lock bit through the lock manager's mutex (T2 fact, regenerated on every run) -/
+
+/-- every call in the filter/query files that takes or releases a world-lock bit is `lockSafe`/`unlockSafe`
+    (queries may be created and closed from several goroutines; with the plain `lock`/`unlock` two open
+    queries can end up with the same bit, and the world is unlocked while one of them is still open), and
+    both kinds occur -/
+theorem src_query_locks_through_mutex :
+    Generated.queryLockCalls.all (fun r => r.2 == "lockSafe" || r.2 == "unlockSafe") = true ∧
+    Generated.queryLockCalls.any (fun r => r.2 == "lockSafe") = true ∧
+    Generated.queryLockCalls.any (fun r => r.2 == "unlockSafe") = true := by decide
 
 end Ark.Props.C07Src
